@@ -72,9 +72,12 @@ Definition set_hist st h := mkSt (globals st) (cells st) (heap st) (closures st)
 Definition emit st l := mkSt (globals st) (cells st) (heap st) (closures st) (mstore st) (hist st) (l :: out st) (trace st).
 Definition log st e := mkSt (globals st) (cells st) (heap st) (closures st) (mstore st) (hist st) (out st) (e :: trace st).
 
-Record ctx := mkCtx { c_env : env; c_local : bool; c_super : option value; c_owner : option nat; c_slot0 : value }.
+Record ctx := mkCtx { c_env : env; c_local : bool; c_super : option value; c_owner : option nat; c_slot0 : value;
+                      c_depth : nat }.     (* number of call frames of the running fiber *)
 
-Definition ctx0 : ctx := mkCtx [] false None None VNil.
+Definition frames_max : nat := 64.          (* common.rs FRAMES_MAX *)
+
+Definition ctx0 : ctx := mkCtx [] false None None VNil 1.
 
 Definition arities (st : state) : list nat := map (fun cl => S (List.length (cl_params cl))) (closures st).
 Definition world_of (st : state) : world := mkW (mstore st) (heap st) (arities st).
@@ -221,7 +224,8 @@ Definition display (S : sem) (st : state) (v : value) : option string :=
 Definition type_name (S : sem) (st : state) (v : value) : option string :=
   match v with
   | VInst _ | VClass _ => s_cname S st (class_of (heap st) v)
-  | _ => None
+  | VNil => Some "Nil" | VNum _ => Some "Num" | VStr _ => Some "String" | VBool _ => Some "Boolean"
+  | VClosure _ => Some "Func" | VBound _ _ => Some "Method" | VBoundNative _ _ => Some "BuiltInMethod"
   end.
 
 Definition new_closure (st : state) (cl : closure) : state * nat :=
@@ -272,7 +276,7 @@ Definition exec_class (S : sem) (c : ctx) (st : state) (cd : cdecl) : state * oc
     let i := s_next_cid S st1 in
     of_res (run_cop (mstore st1) (ODeclare name)) (fun cs =>
       let st2 := set_mstore st1 cs in
-      let c2 := mkCtx rho (c_local c) (c_super c) (c_owner c) (c_slot0 c) in
+      let c2 := mkCtx rho (c_local c) (c_super c) (c_owner c) (c_slot0 c) (c_depth c) in
       let after_super (st3 : state) (supv : option value) (s : option nat) : state * oc :=
         let '(st4, defs0) :=
           match defctor with
@@ -390,7 +394,7 @@ Fixpoint ev (S : sem) (fuel : nat) (c : ctx) (t : task) (st : state) {struct fue
       | [] => (st, RNext (c_env c))
       | s :: r =>
         match rec c (T1 s) st with
-        | (st1, RNext rho) => rec (mkCtx rho (c_local c) (c_super c) (c_owner c) (c_slot0 c)) (TS r) st1
+        | (st1, RNext rho) => rec (mkCtx rho (c_local c) (c_super c) (c_owner c) (c_slot0 c) (c_depth c)) (TS r) st1
         | (st1, RVal _) | (st1, RVals _) => (st1, RStuck "statement outcome")
         | other => other
         end
@@ -429,12 +433,12 @@ Fixpoint ev (S : sem) (fuel : nat) (c : ctx) (t : task) (st : state) {struct fue
           let '(st1, fid) := new_closure st (mkCl name KFun ps body (c_env c) (c_super c) (c_owner c) label) in
           (set_globals st1 (assoc_set name (VClosure fid) (globals st1)), RNext (c_env c))
       | SBlock body =>
-        match rec (mkCtx (c_env c) true (c_super c) (c_owner c) (c_slot0 c)) (TS body) st with
+        match rec (mkCtx (c_env c) true (c_super c) (c_owner c) (c_slot0 c) (c_depth c)) (TS body) st with
         | (st1, RNext _) => (st1, RNext (c_env c))
         | other => other
         end
       | STry body =>
-        match rec (mkCtx (c_env c) true (c_super c) (c_owner c) (c_slot0 c)) (TS body) st with
+        match rec (mkCtx (c_env c) true (c_super c) (c_owner c) (c_slot0 c) (c_depth c)) (TS body) st with
         | (st1, RNext _) => (st1, RNext (c_env c))
         | (st1, RErr k msg) => (emit (emit st1 ("<class " ++ ekind_name k ++ ">")) msg, RNext (c_env c))
         | other => other
@@ -455,6 +459,8 @@ Fixpoint ev (S : sem) (fuel : nat) (c : ctx) (t : task) (st : state) {struct fue
         match nth_error (closures st) fid with
         | None => (st, RStuck "dangling closure")
         | Some cl =>
+          (* call_closure: the frame limit is tested after the arity *)
+          if Nat.eqb (c_depth c) frames_max then (st, RErr IndexError "Stack overflow.") else
           (* Construct is the first instruction of an initialiser *)
           let '(st1, slot0') :=
             match cl_kind cl with
@@ -467,7 +473,7 @@ Fixpoint ev (S : sem) (fuel : nat) (c : ctx) (t : task) (st : state) {struct fue
             | None => (st1, cl_env cl)
             end in
           let '(st3, rho) := bind_params st2 rho0 (cl_params cl) vs in
-          let c' := mkCtx rho true (cl_super cl) (cl_owner cl) slot0' in
+          let c' := mkCtx rho true (cl_super cl) (cl_owner cl) slot0' (Datatypes.S (c_depth c)) in
           match rec c' (TS (cl_body cl)) st3 with
           | (st4, RNext _) => (st4, RVal (match cl_kind cl with KInit => slot0' | _ => VNil end))
           | (st4, RRet v) => (st4, RVal (match cl_kind cl with KInit => slot0' | _ => v end))
@@ -479,7 +485,7 @@ Fixpoint ev (S : sem) (fuel : nat) (c : ctx) (t : task) (st : state) {struct fue
     end
   end.
 
-Definition default_fuel : nat := 400.
+Definition default_fuel : nat := 1200.
 
 Definition run (S : sem) (p : prog) : state * oc := ev S default_fuel ctx0 (TS p) st0.
 Definition eval_spec (p : prog) : state * oc := run sem_spec p.
